@@ -3,7 +3,7 @@
    Constants, the unavailable-input predicate and the return-code guard chains come from
    gen/GenPending.v, regenerated from /repo on every run. *)
 From Coq Require Import List Arith NArith Bool.
-From SV Require Import lib.Bytes gen.GenPending.
+From SV Require Import lib.Bytes lib.SqlExpr model.PendingTypes gen.GenPending.
 Import ListNotations.
 Open Scope N_scope.
 
@@ -96,12 +96,25 @@ Record snap := mk_snap {
 Definition find_step (sn : snap) (i : N) : option stepr := find (fun s => s_id s =? i) (sn_steps sn).
 Definition find_file (sn : snap) (i : N) : option filer := find (fun f => f_id f =? i) (sn_files sn).
 
-(* _INSERT_PEND_STEP *)
+(* Column environments: how a row of the snapshot is read by the translated WHERE clauses.
+   Booleans are stored as 0/1 (SQLite), NULL is None. *)
+Definition ob (b : bool) : option N := Some (b2n b).
+Definition ps_env (thr : N) (s : stepr) (c : pscol) : option N :=
+  match c with
+  | PS_state => Some (s_state s) | PS_ineed => Some (s_ineed s) | PS_threshold => Some thr
+  | PS_detached => ob (s_detached s) | PS_safe => ob (s_safe s) | PS_has_hash => ob (s_has_hash s)
+  | PS_safe_nh => ob (s_safe_nh s) | PS_deferred => ob (s_deferred s) | PS_holding => Some (s_holding s)
+  end.
+
+(* _INSERT_PEND_STEP: WHERE clause and `unsafe` column, as translated from pending.py *)
 Definition in_U (sn : snap) (s : stepr) : bool :=
-  (s_state s =? SS_PENDING) && (sn_threshold sn <? s_ineed s) && negb (s_detached s).
+  sholds (ps_env (sn_threshold sn) s) gen_pend_step_where.
+(* _SELECT_NTOTAL *)
+Definition in_ntotal (sn : snap) (s : stepr) : bool :=
+  sholds (ps_env (sn_threshold sn) s) gen_ntotal_where.
 Definition U (sn : snap) : list stepr := filter (in_U sn) (sn_steps sn).
 Definition U_ids (sn : snap) : list N := map s_id (U sn).
-Definition s_unsafe (s : stepr) : bool := negb (s_safe s || (s_has_hash s && s_safe_nh s)).
+Definition s_unsafe (s : stepr) : bool := sholds (ps_env 0 s) gen_pend_step_unsafe.
 
 Definition is_failed (s : stepr) : bool := s_state s =? SS_FAILED.
 
@@ -111,14 +124,28 @@ Fixpoint dedup_files (l : list filer) : list filer :=
   | f :: r => if existsb (fun g => f_id g =? f_id f) r then dedup_files r else f :: dedup_files r
   end.
 
+(* One row of pend_step JOIN dependency JOIN file JOIN node LEFT JOIN dynamic_dep.  dynamic_dep.i
+   is only ever tested for NULL (the translator checks this): a non-NULL id is modelled as 1. *)
+Definition fb_env_raw (state : N) (detached dynamic deferred unsafe : bool) (c : fbcol) : option N :=
+  match c with
+  | FB_state => Some state | FB_detached => ob detached
+  | FB_dyn => if dynamic then Some 1 else None
+  | FB_ps_deferred => ob deferred | FB_ps_unsafe => ob unsafe
+  end.
+Definition fb_env (u : stepr) (f : filer) (d : depr) : fbcol -> option N :=
+  fb_env_raw (f_state f) (f_detached f) (d_dyn d) (s_deferred u) (s_unsafe u).
+(* step.UNAVAILABLE_INPUT_WHERE: the dispatch test (scheduler.RECOMPUTE_READY) *)
+Definition unavailable_input (state : N) (detached dynamic : bool) : bool :=
+  sholds (fb_env_raw state detached dynamic false false) gen_unavailable_input.
+Definition file_blocks (u : stepr) (f : filer) (d : depr) : bool :=
+  sholds (fb_env u f d) gen_file_block_where.
+
 (* _INSERT_PEND_FILE_BLOCK, restricted to one sink step *)
 Definition blocking_files (sn : snap) (u : stepr) : list filer :=
   dedup_files (flat_map (fun d =>
     if d_sink d =? s_id u then
       match find_file sn (d_src d) with
-      | Some f => if unavailable_input (f_state f) (f_detached f) (d_dyn d)
-                     || deferred_dynamic_block (f_state f) (s_deferred u) (d_dyn d)
-                  then [f] else []
+      | Some f => if file_blocks u f d then [f] else []
       | None => []
       end
     else []) (sn_deps sn)).
@@ -129,9 +156,22 @@ Definition producers (sn : snap) (fid : N) : list stepr :=
                        match find_step sn (d_src d) with Some p => [p] | None => [] end
                      else []) (sn_deps sn).
 
-(* _INSERT_PEND_DEAD_FILE *)
+(* Rows of the candidate relations: the columns a WHERE clause may read, the projected label
+   (src_label), the node label of the source and the source id. *)
+Definition benv := bcol -> option N.
+Record brow := mk_brow { br_env : benv; br_label : str; br_node_label : str; br_src : N }.
+
+(* a source that is a step p, seen from the destination u *)
+Definition prod_env (sn : snap) (dst_in_U : bool) (p : stepr) : benv :=
+  fun c => match c with
+           | B_src_state => Some (s_state p) | B_src_in_U => ob (in_U sn p) | B_src_is_step => Some 1
+           | B_dst_in_U => ob dst_in_U
+           | _ => None
+           end.
+
+(* _INSERT_PEND_DEAD_FILE: no producer passes the translated live-producer test *)
 Definition dead_file (sn : snap) (f : filer) : bool :=
-  negb (existsb (fun p => in_U sn p || is_failed p) (producers sn (f_id f))).
+  negb (existsb (fun p => sholds (prod_env sn true p) gen_live_producer) (producers sn (f_id f))).
 
 (* _INSERT_PEND_UNSAFE_ANC *)
 Definition chain_ok (p : stepr) : bool :=
@@ -150,12 +190,60 @@ Fixpoint anc_walk (sn : snap) (fuel : nat) (a : option N) : option stepr :=
 Definition unsafe_anc (sn : snap) (u : stepr) : option stepr :=
   if s_unsafe u then anc_walk sn (S (length (sn_steps sn))) (s_creator u) else None.
 
-(* _INSERT_PEND_RESOURCE / the RESOURCE arm: unsatisfiable requirements of one step *)
+(* _INSERT_PEND_RESOURCE / the RESOURCE arm *)
 Fixpoint lookup_str (k : str) (l : list (str * N)) : option N :=
   match l with [] => None | (k', v) :: r => if str_eqb k k' then Some v else lookup_str k r end.
-Definition unsat (sn : snap) (req : str * N) : bool :=
-  match lookup_str (fst req) (sn_avail sn) with None => true | Some a => a <? snd req end.
+Definition res_env (sn : snap) (dst_in_U : bool) (req : str * N) : benv :=
+  fun c => match c with
+           | B_dst_in_U => ob dst_in_U
+           | B_avail_name => match lookup_str (fst req) (sn_avail sn) with Some _ => Some 1 | None => None end
+           | B_avail_units => lookup_str (fst req) (sn_avail sn)
+           | B_req_units => Some (snd req)
+           | _ => None
+           end.
+Definition unsat (sn : snap) (req : str * N) : bool := sholds (res_env sn true req) gen_pend_resource_where.
 Definition unsat_reqs (sn : snap) (u : stepr) : list (str * N) := filter (unsat sn) (s_req u).
+(* names in pend_resource *)
+Definition pend_resource_names (sn : snap) : list str := map fst (flat_map (unsat_reqs sn) (U sn)).
+Definition mem_str (x : str) (l : list str) : bool := existsb (str_eqb x) l.
+
+Definition file_env (sn : snap) (dst_in_U : bool) (f : filer) : benv :=
+  fun c => match c with
+           | B_file_state => Some (f_state f) | B_file_detached => ob (f_detached f)
+           | B_dst_in_U => ob dst_in_U
+           | _ => None
+           end.
+Definition self_env (u : stepr) (has_fb : bool) : benv :=
+  fun c => match c with
+           | B_ps_deferred => ob (s_deferred u) | B_ps_unsafe => ob (s_unsafe u)
+           | B_has_file_block => ob has_fb
+           | _ => None
+           end.
+Definition step_row (sn : snap) (du : bool) (p : stepr) (with_label : bool) : brow :=
+  mk_brow (prod_env sn du p) (if with_label then s_label p else []) (s_label p) (s_id p).
+
+(* the rows with dst_step = u of every relation except pend_step_block *)
+Definition base_rows (sn : snap) (u : stepr) (r : rel) : list brow :=
+  let bf := blocking_files sn u in
+  let du := in_U sn u in
+  match r with
+  | RDeadFile => map (fun f => mk_brow (file_env sn du f) (f_label f) (f_label f) (f_id f)) (filter (dead_file sn) bf)
+  | RResource => map (fun r => mk_brow (res_env sn du r) (fst r) (fst r) 0)
+                     (filter (fun r => mem_str (fst r) (pend_resource_names sn)) (s_req u))
+  | RFailedProd | RProd => flat_map (fun f => map (fun p => step_row sn du p true) (producers sn (f_id f))) bf
+  | RAncStep => match unsafe_anc sn u with Some a => [step_row sn du a true] | None => [] end
+  | RAncBare => match unsafe_anc sn u with Some a => [step_row sn du a false] | None => [] end
+  | RSelf => [mk_brow (self_env u (match bf with [] => false | _ => true end)) [] (s_label u) (s_id u)]
+  | RStepBlock => []
+  end.
+Definition arm_rows_of (rows : rel -> list brow) (a : arm) : list brow :=
+  filter (fun row => sholds (br_env row) (a_where a)) (rows (a_rel a)).
+(* _INSERT_PEND_STEP_BLOCK (rows with dst_step = u), then pend_step_block JOIN node *)
+Definition step_block_rows (sn : snap) (u : stepr) : list brow :=
+  map (fun row => mk_brow (fun _ => None) (br_node_label row) (br_node_label row) (br_src row))
+      (flat_map (arm_rows_of (base_rows sn u)) gen_step_block_arms).
+Definition rel_rows (sn : snap) (u : stepr) (r : rel) : list brow :=
+  match r with RStepBlock => step_block_rows sn u | _ => base_rows sn u r end.
 
 (* A candidate blocker: (kind, src_label, src). *)
 Definition cand := (N * str * N)%type.
@@ -163,7 +251,14 @@ Definition c_kind (c : cand) : N := fst (fst c).
 Definition c_label (c : cand) : str := snd (fst c).
 Definition c_src (c : cand) : N := snd c.
 
-Definition cands (sn : snap) (u : stepr) : list cand :=
+(* the UNION ALL of _INSERT_PEND_BLOCKER: every arm as translated from pending.py *)
+Definition arm_cands (sn : snap) (u : stepr) (a : arm) : list cand :=
+  map (fun row => (a_kind a, br_label row, br_src row)) (arm_rows_of (rel_rows sn u) a).
+Definition cands (sn : snap) (u : stepr) : list cand := flat_map (arm_cands sn u) gen_blocker_arms.
+
+(* The same relation written out by hand, as the comments of pending.py describe it (the
+   reference the translated arms are proved equal to: PendingSound.cands_is_spec). *)
+Definition cands_spec (sn : snap) (u : stepr) : list cand :=
   let bf := blocking_files sn u in
   let anc := unsafe_anc sn u in
   (* FILE *)
@@ -227,8 +322,11 @@ Definition attributed (sn : snap) : list (N * cand) := attributed_of (blocker_ro
 (* Buckets *)
 Definition count_kind (k : N) (A : list (N * cand)) : N :=
   N.of_nat (length (filter (fun row => c_kind (snd row) =? k) A)).
+Definition a_env (kind param : N) (is_attributed : bool) (c : acol) : option N :=
+  match c with A_root_kind => Some kind | A_param => Some param | A_attributed => ob is_attributed end.
+(* _cyclic_bucket: WHERE clause as translated *)
 Definition cyclic_ids (sn : snap) : list N :=
-  filter (fun u => negb (memN u (map fst (attributed sn)))) (U_ids sn).
+  filter (fun u => sholds (a_env 0 0 (memN u (map fst (attributed sn)))) gen_cyclic_where) (U_ids sn).
 Definition root_kinds : list N :=
   [K_ROOT_FILE; K_ROOT_RESOURCE; K_ROOT_FAILED; K_ROOT_DEFERRED; K_ROOT_OTHER; K_ROOT_RUNNABLE].
 Definition sumN (l : list N) : N := fold_right N.add 0 l.
@@ -244,7 +342,7 @@ Definition class_of (sn : snap) (u : N) : option N :=
 Definition n_failed_attached (sn : snap) : N :=
   N.of_nat (length (filter (fun s => is_failed s && negb (s_detached s)) (sn_steps sn))).
 Definition ru_of_snap (sn : snap) (draining : bool) (mt md gw ge : N) : ru_in :=
-  mk_ru (n_failed_attached sn) draining (N.of_nat (length (U sn))) mt md gw ge.
+  mk_ru (n_failed_attached sn) draining (N.of_nat (length (filter (in_ntotal sn) (sn_steps sn)))) mt md gw ge.
 Definition required (sn : snap) (s : stepr) : bool :=
   (sn_threshold sn <? s_ineed s) && negb (s_detached s).
 
@@ -279,7 +377,7 @@ Fixpoint min_label (l : list str) : option str :=
               end
   end.
 Definition bucket (sn : snap) (k : N) : N * option str :=
-  let rows := filter (fun row => c_kind (snd row) =? k) (attributed sn) in
+  let rows := filter (fun row => sholds (a_env (c_kind (snd row)) k true) gen_bucket_where) (attributed sn) in
   (N.of_nat (length rows), min_label (map (fun row => label_of sn (fst row)) rows)).
 Definition cyclic_bucket (sn : snap) : N * option str :=
   let ids := cyclic_ids sn in (N.of_nat (length ids), min_label (map (label_of sn) ids)).
@@ -345,3 +443,41 @@ Definition exact_file (sn : snap) (fid : N) : N :=
   exact_count sn (fun u => existsb (fun f => (f_id f =? fid) && dead_file sn f) (blocking_files sn u)).
 Definition exact_resource (sn : snap) (name : str) : N :=
   exact_count sn (fun u => existsb (fun r => str_eqb (fst r) name) (unsat_reqs sn u)).
+
+(* ------------------------------------------------------------------------------------------ *)
+(* Executable checks used by the harness to look for a counterexample inside Coq when a lemma  *)
+(* about the translated clauses no longer holds (proofs/PendingGenSpec.v)                       *)
+(* ------------------------------------------------------------------------------------------ *)
+
+Definition fb_sweep : list (N * (bool * (bool * bool))) :=
+  flat_map (fun st => flat_map (fun det => flat_map (fun dyn => map (fun defr => (st, (det, (dyn, defr))))
+    [false; true]) [false; true]) [false; true])
+    [0; FS_UNDECLARED; FS_UNCONFIRMED; FS_MISSING; FS_CONFIRMED; FS_PLANNED; FS_BUILT; FS_OUTDATED; FS_VOLATILE; 99].
+(* inputs dispatch refuses that _INSERT_PEND_FILE_BLOCK does not list (file_block_complete) *)
+Definition fb_gap_complete : list (N * (bool * (bool * bool))) :=
+  filter (fun t => let '(st, (det, (dyn, defr))) := t in
+            unavailable_input st det dyn && negb (sholds (fb_env_raw st det dyn defr false) gen_file_block_where))
+         fb_sweep.
+(* rows of _INSERT_PEND_FILE_BLOCK that are neither refused by dispatch nor unbuilt dynamic inputs
+   of a deferred step (file_block_sound) *)
+Definition fb_gap_sound : list (N * (bool * (bool * bool))) :=
+  filter (fun t => let '(st, (det, (dyn, defr))) := t in
+            sholds (fb_env_raw st det dyn defr false) gen_file_block_where
+            && negb (unavailable_input st det dyn
+                     || (defr && dyn && negb (st =? FS_CONFIRMED) && negb (st =? FS_BUILT))))
+         fb_sweep.
+Fixpoint cands_eqb (a b : list cand) : bool :=
+  match a, b with
+  | [], [] => true
+  | x :: a', y :: b' => cand_eqb x y && cands_eqb a' b'
+  | _, _ => false
+  end.
+(* the steps of U on which the translated arms and the hand-written relation differ (cands_is_spec) *)
+Definition cands_disagree (sn : snap) : list N :=
+  map s_id (filter (fun u => negb (cands_eqb (cands sn u) (cands_spec sn u))) (U sn)).
+(* the same for the universe itself and the safety column *)
+Definition universe_disagree (sn : snap) : list N :=
+  map s_id (filter (fun s => negb (Bool.eqb (in_U sn s)
+      ((s_state s =? SS_PENDING) && (sn_threshold sn <? s_ineed s) && negb (s_detached s)))
+    || negb (Bool.eqb (in_ntotal sn s) (in_U sn s))
+    || negb (Bool.eqb (s_unsafe s) (negb (s_safe s || (s_has_hash s && s_safe_nh s))))) (sn_steps sn)).
